@@ -131,6 +131,13 @@ def sym_type_tables(vc):
     fk = vc.under_contract(F + 'format_csv.py', ['CSVFormat'])
     vc.under_contract(F + 'format_json.py', ['JSONFormat'])
 
+    def entry(it, table, d, key):
+        """the tables are keyed by Table Schema type names (public vocabulary): a missing entry is a failed obligation, not a
+        contract-mapping error"""
+        present = key in d.d
+        check(it, '%s-has-an-entry-for-%s' % (table, key), present)
+        return d.d[key] if present else None
+
     def thunk(it):
         mc, mj, mb = load_formats(it)
         SF = z3.Function('strftime', StrS, IntS, StrS, StrS)
@@ -139,10 +146,14 @@ def sym_type_tables(vc):
             for kind, ff, pf in (('date', 'DATE_F_FORMAT', 'DATE_P_FORMAT'), ('time', 'TIME_F_FORMAT', 'TIME_P_FORMAT'),
                                  ('datetime', 'DATETIME_F_FORMAT', 'DATETIME_P_FORMAT')):
                 v = mk_temporal(it, kind, aware=False)
-                out = it.call(SER.d[kind], [v])
+                ser = entry(it, name + '-serializers', SER, kind)
+                dia = entry(it, name + '-dialect', DIA, kind)
+                if ser is None or dia is None:
+                    continue
+                out = it.call(ser, [v])
                 check(it, '%s-%s-written-with-the-strftime-twin-of-the-stamped-format' % (name, kind),
                       z3.And(term(out, StrS) == SF(z3.StringVal(kind), v.term, z3.StringVal(FORMATS[ff])),
-                             z3.BoolVal(DIA.d[kind].d.get('format') == FORMATS[pf])))
+                             z3.BoolVal(dia.d.get('format') == FORMATS[pf])))
                 ej = it.module('dataflows.helpers.extended_json')
                 check(it, '%s-%s-module-formats-are-the-twins-T10-covers' % (name, kind),
                       ej.attrs.get(ff) == FORMATS[ff] and ej.attrs.get(pf) == FORMATS[pf]
@@ -150,17 +161,21 @@ def sym_type_tables(vc):
         # CSV: booleans go through str(): 'True' / 'False' must be exactly the stamped true/false values
         b = cls = mc.attrs['CSVFormat']
         d = b.attrs['PYTHON_DIALECT'].d
-        check(it, 'csv-boolean-text-is-stamped', d['boolean'].d['trueValues'].items == [str(True)] and
+        check(it, 'csv-boolean-text-is-stamped', 'boolean' in d and d['boolean'].d.get('trueValues') is not None and
+              d['boolean'].d.get('falseValues') is not None and d['boolean'].d['trueValues'].items == [str(True)] and
               d['boolean'].d['falseValues'].items == [str(False)] and 'boolean' not in b.attrs['SERIALIZERS'].d)
-        check(it, 'csv-number-stamped-as-plain-decimal', d['number'].d == {'decimalChar': '.', 'groupChar': ''} and
+        check(it, 'csv-number-stamped-as-plain-decimal', 'number' in d and d['number'].d == {'decimalChar': '.', 'groupChar': ''} and
               'number' not in b.attrs['SERIALIZERS'].d)
         check(it, 'csv-null-marker-is-the-empty-string', b.attrs['NULL_VALUE'] == '' and mj.attrs['JSONFormat'].attrs['NULL_VALUE'] is None)
         jd = mb.attrs['json_dumps']
-        check(it, 'csv-arrays-and-objects-as-json-text', b.attrs['SERIALIZERS'].d['array'] is jd and b.attrs['SERIALIZERS'].d['object'] is jd)
+        check(it, 'csv-arrays-and-objects-as-json-text', b.attrs['SERIALIZERS'].d.get('array') is jd and
+              b.attrs['SERIALIZERS'].d.get('object') is jd)
         n = sym_int(it, 'year')
-        y = it.call(b.attrs['SERIALIZERS'].d['year'], [n])
-        f4 = z3.Function('py_format[04d]', __import__('pyvc.api').api.Cell, StrS)
-        check(it, 'csv-year-zero-padded', term(y, StrS) == f4(__import__('pyvc.api').api.Cell.int(n.t)))
+        ys = entry(it, 'csv-serializers', b.attrs['SERIALIZERS'], 'year')
+        if ys is not None:
+            y = it.call(ys, [n])
+            f4 = z3.Function('py_format[04d]', __import__('pyvc.api').api.Cell, StrS)
+            check(it, 'csv-year-zero-padded', term(y, StrS) == f4(__import__('pyvc.api').api.Cell.int(n.t)))
     vc.explore(fk, thunk)
 
 
